@@ -64,12 +64,30 @@ def expand(case):
     g = ModelGen(rnd, itemspaces=case.get("itemspaces", False))
     g.f["inputs"] = False
     g.build()
-    eg = EditGen(g)
+    eg = EditGen(g, allow_del_base=True)
     ops = list(g.ops)
+    if case.get("itemspaces") and rnd.random() < 0.5:
+        tops = [s for s in g.rm.children.values() if s.formula is None]
+        if tops:
+            t = rnd.choice(tops)
+            op = {"op": "new_space", "name": "PB", "formula": {"params": [["p", None]], "base": t.path()}}
+            g.emit(op)
+            ops.append(op)
     ops.append({"op": "evalall"})
     for _ in range(case["nedits"]):
         r = rnd.random()
-        if r < 0.15:
+        if r < 0.08:
+            # delete a whole top-level space that is parametrised, or is the base of instances of another
+            ps = [s for s in g.rm.children.values() if s.formula is not None
+                  or any(o.formula is not None and o.formula.base is s for o in g.rm.walk())]
+            if ps:
+                e = {"op": "del_space", "path": rnd.choice(ps).path()}
+                if not eg._would_dangle(e):
+                    g.emit(e)
+                    ops.append(dict(e, tag="del_space"))
+                    ops.append({"op": "evalall"})
+                    continue
+        if r < 0.2:
             # discard one ItemSpace directly
             ps = [s for s in g.rm.walk() if s.formula is not None
                   and not any(a.formula is not None for a in R._ancestors(s))]
